@@ -661,7 +661,7 @@ pub fn run_batch<G: CurveTag>(
     cap: usize,
     seed: u64,
 ) -> (Option<Result<(), R1CSError>>, Option<String>) {
-    let gens = bp_gens::<G>(cap, 1);
+    let gens = bp_gens::<G>(cap, members.first().map(|m| m.prog.party_cap as usize).unwrap_or(1).max(1));
     // one pair of bases per batch: that of its first member (callers keep members consistent)
     let pc = members.first().map(|m| prog_pc::<G>(m.prog)).unwrap_or_else(pc_gens::<G>);
     let mut transcripts: Vec<Transcript> = members.iter().map(|m| make_transcript(m.prog)).collect();
